@@ -320,8 +320,9 @@ Section WithInferrer.
     | BLexicalAscending => lex a b
     | BLexicalDescending => let '(b1, a1, r) := lex b a in (a1, b1, r)
     | BCaseFoldAscending | BCaseFoldDescending =>
-        (* String() on both, then IsString() on both (forces the type) *)
-        let '(a1, _) := string_op a in let '(b1, _) := string_op b in (force a1, force b1, unk)
+        (* String() on both, folded with strings.ToLower; the type is no longer consulted (/repo 227a6286a: sort -c
+           folds number-like text too), so no inference is forced *)
+        let '(a1, _) := string_op a in let '(b1, _) := string_op b in (a1, b1, unk)
     | BNaturalAscending | BNaturalDescending =>
         let '(a1, _) := string_op a in let '(b1, _) := string_op b in (a1, b1, unk)
     | BBif strings =>
